@@ -33,7 +33,7 @@ var alphabetCmd = &cobra.Command{
 			} else {
 
 				al := <-aligns.Achan
-				if aligns.Err != nil {
+				if al == nil {
 					err = aligns.Err
 					io.LogError(err)
 					return
